@@ -240,17 +240,31 @@ func (el *eventloop) open(c *conn) error {
 	out, action := el.eventHandler.OnOpen(c)
 	if out != nil {
 		if err := c.open(out); err != nil {
-			return err
+			return el.failOpen(c, action, os.NewSyscallError("write", err))
 		}
 	}
 
 	if !c.outboundBuffer.IsEmpty() && !el.engine.opts.EdgeTriggeredIO {
 		if err := el.poller.ModReadWrite(&c.pollAttachment, false); err != nil {
-			return err
+			return el.failOpen(c, action, err)
 		}
 	}
 
 	return el.handleAction(c, action)
+}
+
+// failOpen closes a connection whose first write (the data returned by OnOpen) or the arming
+// of its write interest failed. Like any other I/O failure this ends the connection: OnClose is
+// delivered with the error and the descriptor is released, instead of leaving a half-initialized
+// connection registered. A Shutdown action from OnOpen or OnClose is still carried out.
+func (el *eventloop) failOpen(c *conn, action Action, err error) error {
+	if e := el.close(c, err); e != nil {
+		return e
+	}
+	if action == Shutdown {
+		return errorx.ErrEngineShutdown
+	}
+	return err
 }
 
 func (el *eventloop) read0(a any) error {
